@@ -8,6 +8,7 @@ from collections import deque
 from .. import store
 from ..core import Result, digest, HarnessError
 from hio.base.hier import Durq, Dusq, Bag, IceBag, Hold
+from hio import HierError
 
 PID = "C23"
 ENGINE = "store"
@@ -26,7 +27,7 @@ RULE = ("Each case runs a seeded history of up to 40 (thorough 100) operations o
 COMPONENTS = dict(real=["hio.base.hier.durqing.Durq", "hio.base.hier.dusqing.Dusq", "hio.base.hier.holding.Hold", "hio.base.during.Subery/Duror/DomIoSuber/DomIoSetSuber", "LMDB"],
                   stub=["process death (fork + os._exit at a traced line)"])
 ASSUMPTIONS = ["crash = process death; the page cache survives, LMDB's own fsync discipline is trusted"]
-PROBES = ["reopen_nonempty", "crash_inside_operation", "dusq_remove", "dusq_duplicate_push", "extend_with_duplicates", "pull_empty", "clear_nonempty"]
+PROBES = ["store_and_containers_in_one_update", "reopen_nonempty", "crash_inside_operation", "dusq_remove", "dusq_duplicate_push", "extend_with_duplicates", "pull_empty", "clear_nonempty"]
 BOUNDS = dict(quick=dict(ops=40), thorough=dict(ops=100))
 TIERS = dict(quick=dict(cases=1200, wall=50.0), thorough=dict(cases=60000, wall=420.0))
 SIM_TIME_UNIT = "operations"
@@ -48,19 +49,25 @@ def gen_history(tape, maxops):
     for _ in range(n):
         which = tape.pick("which", ["q", "s"])
         if which == "q":
-            op = ["push", "pull", "extend", "clear", "count", "reopen", "resync"][tape.weighted("qop", [6, 5, 3, 1, 1, 1, 1])]
+            op = ["push", "pull", "extend", "clear", "count", "reopen", "resync", "extend_bad"][tape.weighted("qop", [6, 5, 3, 1, 1, 1, 1, 1])]
         else:
-            op = ["push", "pull", "update", "remove", "clear", "reopen", "resync"][tape.weighted("sop", [6, 4, 3, 3, 1, 1, 1])]
+            op = ["push", "pull", "update", "remove", "clear", "reopen", "resync", "update_bad"][tape.weighted("sop", [6, 4, 3, 3, 1, 1, 1, 1])]
         arg = None
         if op in ("push", "remove", "count"):
             arg = POOL[tape.draw("val", len(POOL))]
         elif op in ("extend", "update"):
             arg = [POOL[tape.draw("val", len(POOL))] for _ in range(tape.draw("nvals", 5))]
+        elif op in ("extend_bad", "update_bad"):
+            # a batch that is rejected half way: valid values, then something that is not a registered value, then more
+            arg = [POOL[tape.draw("val", len(POOL))] for _ in range(1 + tape.draw("nvals", 3))]
+            arg = (arg, 1 + tape.draw("bad_at", len(arg)))
         hist.append((which, op, arg))
     return hist
 
 
 class World:
+    together = False      # how the Hold gets its store and containers (set per case)
+
     def __init__(self, path):
         self.path = path
         self.open()
@@ -68,11 +75,15 @@ class World:
     def open(self):
         self.subery = store.open_subery(self.path)
         self.hold = Hold()
-        self.hold._hold_subery = self.subery
         self.q = Durq()
         self.s = Dusq()
-        self.hold["queue"] = self.q
-        self.hold["set"] = self.s
+        if World.together:
+            # store and containers arrive in one update() call, the containers listed first
+            self.hold.update({"queue": self.q, "set": self.s, "_hold_subery": self.subery})
+        else:
+            self.hold._hold_subery = self.subery
+            self.hold["queue"] = self.q
+            self.hold["set"] = self.s
 
     def close(self):
         self.subery.close()
@@ -85,6 +96,8 @@ def apply_model(mq, ms, which, op, arg):
     """returns expected return value (or a marker)"""
     if op == "resync":
         return True       # forced re-read of the durable copy into the live container: content unchanged
+    if op in ("extend_bad", "update_bad"):
+        return "REJECTS"  # the whole batch is refused: content unchanged
     if which == "q":
         if op == "push":
             mq.append(arg)
@@ -146,6 +159,15 @@ def apply_real(w, which, op, arg):
         return c.remove(mk(arg))
     if op == "resync":
         return c.sync(force=True)
+    if op in ("extend_bad", "update_bad"):
+        vals, pos = arg
+        batch = [mk(a) for a in vals]
+        batch.insert(min(pos, len(batch)), "not-a-registered-value")
+        try:
+            r = c.extend(batch) if op == "extend_bad" else c.update(batch)
+        except HierError:
+            return "REJECTS"
+        return ("accepted", r)
     raise HarnessError(op)
 
 
@@ -314,6 +336,9 @@ def run_case(tape, tier):
     hist = gen_history(tape, maxops)
     crash = tape.flag("crash", 1, 4)
     crash_line = None
+    World.together = tape.flag("hold_update_together", 1, 3)
+    if World.together:
+        res.probes["store_and_containers_in_one_update"] += 1
     path = store.scratch()
     try:
         if crash:
